@@ -312,8 +312,59 @@ fn check_larger(i: &u64, seed: u64, rec: &mut Rec) -> CheckResult {
     check(&c, rec)
 }
 
+/// Bytes must not depend on what the thread did before: after a build that died of an I/O error
+/// at write call i (for every i), and after builds of other sequences, the same sequence built
+/// again on this thread gives the same bytes as before.
+fn check_history(pairs: &gen::Pairs, set: &bool, rec: &mut Rec) -> CheckResult {
+    use crate::sinks::{FaultKind, FaultSink};
+    let build_mem = |ps: &gen::Pairs| -> Result<Vec<u8>, Fail> {
+        let mut b = fst::raw::Builder::new(vec![]).map_err(|e| Fail::new("build-error", format!("{:?}", e)))?;
+        for (k, v) in ps {
+            let r = if *set { b.add(k) } else { b.insert(k, *v) };
+            r.map_err(|e| Fail::new("build-error", format!("{:?}", e)))?;
+        }
+        b.into_inner().map_err(|e| Fail::new("build-error", format!("{:?}", e)))
+    };
+    let reference = build_mem(pairs)?;
+    // how many write calls does a fault-free build make?
+    let (probe, st) = FaultSink::new(None, false, FaultKind::Other, usize::MAX);
+    {
+        let mut b = fst::raw::Builder::new(probe).map_err(|e| Fail::new("build-error", format!("{:?}", e)))?;
+        for (k, v) in pairs {
+            (if *set { b.add(k) } else { b.insert(k, *v) }).map_err(|e| Fail::new("build-error", format!("{:?}", e)))?;
+        }
+        b.finish().map_err(|e| Fail::new("build-error", format!("{:?}", e)))?;
+    }
+    let w = st.borrow().writes;
+    for i in 0..w.min(60) {
+        rec.eval();
+        let (sink, _st) = FaultSink::new(Some(i), false, if i % 2 == 0 { FaultKind::Other } else { FaultKind::OkZero }, if i % 3 == 0 { 3 } else { usize::MAX });
+        // the doomed build: same keys, errors ignored
+        // (a builder that has returned an error is dropped, not used further)
+        if let Ok(mut b) = fst::raw::Builder::new(sink) {
+            let mut ok = true;
+            for (k, v) in pairs {
+                if (if *set { b.add(k) } else { b.insert(k, *v) }).is_err() {
+                    ok = false;
+                    break;
+                }
+            }
+            if ok {
+                let _ = b.finish();
+            }
+        }
+        let again = build_mem(pairs)?;
+        vensure!(again == reference, "bytes-depend-on-history", "the same sequence built on the same thread right after a build that died of an I/O error at write call {} gives {} bytes, before it gave {} (first difference at offset {}); keys {}", i, again.len(), reference.len(), again.iter().zip(reference.iter()).position(|(a, b)| a != b).unwrap_or(again.len().min(reference.len())), crate::oracle::keys_show(pairs));
+    }
+    if !rec.muted {
+        rec.class("rebuilt_after_failed_builds");
+        rec.nontrivial(crate::engine::H::new().pairs(pairs).u(*set as u64).u(0x415).get());
+    }
+    Ok(())
+}
+
 pub fn run(e: &Engine) {
-    e.set_rule("cases are (type, key/value sequence, cache geometry incl. evicting hook geometries); each is built through every entry point that accepts it (raw insert/add, MapBuilder, SetBuilder, from_iter*, extend_iter, extend_stream from user streams, from opened FSTs, from range streams and from a union of 2..5 part-sets, a 3-bytes-per-call sink), twice in the same thread, optionally in 16 threads at once, and in child processes; oracle = byte equality; non-trivial = sequence with >= 50 emitted nodes compared across >= 3 entry points, or any cross-process comparison; distinct by input hash");
+    e.set_rule("cases are (type, key/value sequence, cache geometry incl. evicting hook geometries); each is built through every entry point that accepts it (raw insert/add, MapBuilder, SetBuilder, from_iter*, extend_iter, extend_stream from user streams, from opened FSTs, from range streams and from a union of 2..5 part-sets, a 3-bytes-per-call sink), twice in the same thread, optionally in 16 threads at once, in child processes, and again on the same thread right after builds that died of an I/O error at each write call; oracle = byte equality; non-trivial = sequence with >= 50 emitted nodes compared across >= 3 entry points, or any cross-process comparison; distinct by input hash");
     e.assume("other platforms / endianness are out of reach in this sandbox");
     e.run_enum("u3-subsets-all-entry-points", 32768 * 2, |idx, rec| {
         let u3 = gen::u3();
@@ -336,14 +387,28 @@ pub fn run(e: &Engine) {
     let items: Vec<u64> = (0..e.tier.pick(7u64, 40)).collect();
     let seed = e.seed;
     e.run_list("larger-sequences-threads", &items, |i| json!({"recipe_case": i, "seed": seed.to_string()}), |i, rec| check_larger(i, seed, rec));
+    e.run_prop(
+        "rebuild-after-failed-builds-on-the-same-thread",
+        e.tier.pick(400, 8_000),
+        || (gen::small_pairs(16, 40), any::<bool>()).prop_map(|(pairs, set)| (if set { pairs.into_iter().map(|p| (p.0, 0)).collect() } else { pairs }, set)),
+        |(pairs, set)| json!({"history_pairs": crate::engine::pairs_json(pairs), "set": set}),
+        |(pairs, set), rec| check_history(pairs, set, rec),
+    );
     cross_process(e, e.tier.pick(24, 200));
-    for cls in ["at_least_50_nodes", "built_in_16_threads", "cross_process_comparison"] {
+    for cls in ["at_least_50_nodes", "built_in_16_threads", "cross_process_comparison", "rebuilt_after_failed_builds"] {
         e.require_class(cls, 1);
     }
 }
 
 pub fn replay(_sub: &str, case: &Value) -> Option<CheckResult> {
     let mut rec = Rec::new(0);
+    if let Some(ps) = case.get("history_pairs") {
+        return Some(crate::engine::guarded(|| {
+            let pairs = crate::engine::pairs_from_json(ps).ok_or_else(bad)?;
+            let set = case.get("set").and_then(|x| x.as_bool()).ok_or_else(bad)?;
+            check_history(&pairs, &set, &mut rec)
+        }));
+    }
     let seed = || case.get("seed").and_then(|x| x.as_str()).and_then(|x| x.parse::<u64>().ok()).ok_or_else(bad);
     if let Some(i) = case.get("cross_process_case").and_then(|x| x.as_u64()) {
         return Some(crate::engine::guarded(|| check_cross(&i, seed()?, &mut rec)));
